@@ -41,6 +41,9 @@ type Run struct {
 	MaxState int         // state cap (0 = none); hitting it makes the run non-exhaustive
 	Race     bool        // use the -race worker binary
 	Cases    bool        // shard job that reports one line per case and can be resumed behind a fatal case
+	// Supplementary marks a sampling pass (free-running -race): its violations count, its executions
+	// are not added to the exhaustive totals and it does not affect the exhaustive flag
+	Supplementary bool
 }
 
 // Plan is what a check runs for one tier.
@@ -75,6 +78,7 @@ type runStats struct {
 	WallS       float64       `json:"wall_s"`
 	Samples     []interface{} `json:"-"`
 	Extra       interface{}   `json:"extra,omitempty"`
+	Supp        bool          `json:"supplementary_sampling_pass,omitempty"`
 }
 
 type ctx struct {
@@ -153,10 +157,22 @@ func buildWorker(scratch string, race bool) (string, json.RawMessage, error) {
 	ov := filepath.Join(scratch, "ov")
 	if _, err := os.Stat(filepath.Join(ov, "overlay.json")); err != nil {
 		instr := filepath.Join(verifDir, "bin", "instr")
-		if _, err := os.Stat(instr); err != nil {
-			if out, err := run(filepath.Join(verifDir, "tools/instr"), goEnv, "go1.26", "build", "-o", instr, "."); err != nil {
+		stale := true
+		if bi, err := os.Stat(instr); err == nil {
+			stale = false
+			srcs, _ := filepath.Glob(filepath.Join(verifDir, "tools/instr", "*.go"))
+			for _, f := range srcs {
+				if si, err := os.Stat(f); err == nil && si.ModTime().After(bi.ModTime()) {
+					stale = true
+				}
+			}
+		}
+		if stale {
+			tmp := fmt.Sprintf("%s.%d", instr, os.Getpid())
+			if out, err := run(filepath.Join(verifDir, "tools/instr"), goEnv, "go1.26", "build", "-o", tmp, "."); err != nil {
 				return "", nil, fmt.Errorf("build instr: %v\n%s", err, out)
 			}
+			os.Rename(tmp, instr)
 		}
 		if out, err := run(verifDir, goEnv, instr, "-repo", repoDir, "-rt", filepath.Join(verifDir, "h/verifrt_src"), "-out", ov); err != nil {
 			return "", nil, fmt.Errorf("instr: %v\n%s", err, out)
@@ -266,8 +282,28 @@ func runCheck(id, tier string) int {
 			fmt.Fprintf(os.Stderr, "HARNESS-ERROR in run %s: %v\n", r.Name, err)
 			return 3
 		}
+		st.Supp = r.Supplementary
 		fmt.Printf("run %-28s states=%d transitions=%d nontrivial=%d outcomes=%d depth=%d exhaustive=%v %s (%.1fs)\n",
 			st.Name, st.States, st.Transitions, st.Nontrivial, st.Outcomes, st.DepthDone, st.Exhaustive, st.Cap, st.WallS)
+		if st.Supp {
+			if b, err := json.Marshal(st.Extra); err == nil {
+				var xs []struct {
+					Notes []string `json:"free_running_notes"`
+				}
+				seen := map[string]bool{}
+				if json.Unmarshal(b, &xs) == nil {
+					for _, x := range xs {
+						for _, n := range x.Notes {
+							l := firstLines(n, 1)
+							if !seen[l] {
+								seen[l] = true
+								fmt.Printf("NOTE (%s, not a verdict): %s\n", st.Name, l)
+							}
+						}
+					}
+				}
+			}
+		}
 		stats = append(stats, st)
 	}
 	c.writeEvidence(plan, stats)
@@ -340,6 +376,11 @@ func (c *ctx) runJob(bin string, job *pt.Job, timeout time.Duration) ([]pt.Line,
 	defer os.Remove(of)
 	cmd := exec.Command(bin, "-test.run", "^TestWorker$", "-test.timeout", "0", "-test.count", "1")
 	cmd.Env = append(os.Environ(), "VERIF_JOB="+jf, "VERIF_OUT="+of, "GOMAXPROCS=1")
+	if job.Kind == "racefree" {
+		// free-running pass under the race detector: real parallelism, reports go to a log file the worker parses
+		rl := filepath.Join(c.scratch, fmt.Sprintf("race%d", n))
+		cmd.Env = append(os.Environ(), "VERIF_JOB="+jf, "VERIF_OUT="+of, "GOMAXPROCS=4", "VERIF_RACELOG="+rl, "GORACE=halt_on_error=0 log_path="+rl)
+	}
 	var stderr bytes.Buffer
 	cmd.Stdout = &stderr
 	cmd.Stderr = &stderr
@@ -793,7 +834,12 @@ func (c *ctx) writeEvidence(plan Plan, stats []*runStats) {
 	exhaustive := true
 	var samples []interface{}
 	var caps []string
+	var supp []*runStats
 	for _, s := range stats {
+		if s.Supp {
+			supp = append(supp, s)
+			continue
+		}
 		states += s.States
 		trans += s.Transitions
 		nt += s.Nontrivial
@@ -830,6 +876,9 @@ func (c *ctx) writeEvidence(plan Plan, stats []*runStats) {
 		"runs":                          stats,
 		"known_findings_hit":            knownIDs,
 		"explanation":                   "every transition is one execution of the real orda code (no separate model); counts are measured by the driver",
+	}
+	if len(supp) > 0 {
+		cov["supplementary_sampling_runs"] = supp
 	}
 	if len(c.instrRep) > 0 {
 		cov["instrumentation"] = json.RawMessage(c.instrRep)
